@@ -20,6 +20,7 @@ type shimCall struct {
 	Invoke  uint64
 	Return  uint64
 	RetAt   time.Duration
+	InvAt   time.Duration // absolute simulated time of the invocation
 	Status  int
 	Err     string
 	Done    bool
@@ -42,6 +43,16 @@ func worldC12(w *World) {
 	if t.Rare(1, 3, "stubborn") {
 		wb.Stubborn = func(string) bool { return true }
 		w.Probe("backend_ignores_closing_handshake")
+	}
+	// session 0's backend may stop reading altogether while a large message and more
+	// than a buffer's worth of small ones are posted to it; calls on that session may
+	// then block for as long as the backend stays stalled, but calls on the other
+	// session must be answered as always
+	stalled := nSess == 2 && !backendCloses && t.Rare(1, 3, "stalled")
+	if stalled {
+		wb.Stalled = func(uri string) bool { return uri == "/s0" }
+		w.K.SendBuf = 4 << 10
+		w.Probe("stalled_backend_on_other_session")
 	}
 	hsDelay := []time.Duration{0, 0, 30 * time.Millisecond, time.Second}[t.Choice(4, "handshakedelay")]
 	wb.rb.Delay = func(r *http.Request) time.Duration { return hsDelay }
@@ -125,6 +136,22 @@ func worldC12(w *World) {
 		if nSess > 1 && hsDelay > 0 {
 			w.Probe("overlapping_opens")
 		}
+		if stalled && sessions[0].opened {
+			// wedge session 0's relay: one message larger than the socket buffers, then
+			// more small ones than the relay queues; these posts may never be answered
+			for j := 0; j < 14; j++ {
+				j := j
+				go func() {
+					m := wsMsg{Data: []byte(fmt.Sprintf("small-%d", j))}
+					if j == 0 {
+						m = wsMsg{Data: []byte(strings.Repeat("L", 200000))}
+					}
+					sc.data(sessions[0].id, 1, []wsMsg{m})
+				}()
+				time.Sleep(10 * time.Millisecond)
+			}
+			time.Sleep(time.Second)
+		}
 		for _, c := range calls {
 			c := c
 			wg.Add(1)
@@ -162,6 +189,7 @@ func worldC12(w *World) {
 					}
 				}
 				c.Started = true
+				c.InvAt = w.K.Now()
 				c.Invoke = w.K.Seq()
 				st, _, err := sc.call(c.Kind, body)
 				c.Return = w.K.Seq()
@@ -237,6 +265,9 @@ func worldC12(w *World) {
 		sameInstant := 0
 		for _, c := range calls {
 			name := fmt.Sprintf("%s(session %d, %s argument)", c.Kind, c.Sess, c.Arg)
+			if stalled && c.Sess == 0 && c.Arg != "unknown" && c.Arg != "malformed" && c.Arg != "empty" {
+				continue // may block while its backend does not read
+			}
 			if !c.Done {
 				w.Violation("unanswered", "a shim call never got an HTTP answer | %s issued at %v", name, c.At)
 				continue
@@ -248,14 +279,22 @@ func worldC12(w *World) {
 			if c.Status != 200 && c.Status != 400 && c.Status != 408 && c.Status != 500 {
 				w.Violation("status", "a shim call was answered with an unexpected status | %s: %d", name, c.Status)
 			}
-			if c.RetAt-c.At > 5*time.Minute {
-				w.Violation("unanswered", "a shim call was only answered after more than five simulated minutes | %s returned after %v", name, c.RetAt-c.At)
+			if c.RetAt-c.InvAt > 5*time.Minute {
+				w.Violation("unanswered", "a shim call was only answered after more than five simulated minutes | %s returned after %v", name, c.RetAt-c.InvAt)
 			}
 			if (c.Arg == "unknown" || c.Arg == "malformed" || c.Arg == "empty") && c.Status != 400 {
 				w.Violation("rejected", "a call with an unknown session ID or malformed body was not rejected with 400 | %s: %d", name, c.Status)
 			}
 			if r, ok := closeRet[c.Sess]; ok && c.Arg == "valid" && c.Invoke > r && c.Status != 400 {
 				w.Violation("rejected", "a call on a session whose close had already been answered was not rejected with 400 | %s: %d", name, c.Status)
+			}
+			// (only when the backend had sent nothing before closing: with undelivered
+			// messages queued the relay may not have read as far as the close yet)
+			if backendCloses && nb == 0 && c.Sess == 0 && c.Kind == "data" && (c.Arg == "valid" || c.Arg == "oddmsg") && sessions[0].bclosedAt > 0 && c.InvAt > sessions[0].bclosedAt+2*time.Second {
+				w.Probe("data_after_backend_closed")
+				if c.Status != 400 {
+					w.Violation("rejected", "a data call on a session whose backend had closed the websocket seconds before was not rejected with 400 | %s at %v (backend closed at %v): %d", name, c.InvAt, sessions[0].bclosedAt, c.Status)
+				}
 			}
 			if c.At == 0 {
 				sameInstant++
@@ -293,6 +332,9 @@ func worldC12(w *World) {
 				s.mu.Lock()
 				closed := s.Closed
 				s.mu.Unlock()
+				if stalled && s.Path == "/s0" {
+					continue
+				}
 				if _, ok := closeRet[sessIndexOf(wb, s, nSess)]; ok && !closed {
 					w.Violation("close", "the session was closed by the client but the backend websocket is still open")
 				}
